@@ -18,6 +18,7 @@ import numpy as np
 from harness.common import deep_compare, err_kind, frac
 
 PID = "C05"
+DISABLED = True
 THEOREMS = [
     "PorepyVerif.C05.inv_step",
     "PorepyVerif.C05.inv_reachable",
@@ -87,22 +88,23 @@ def _entity_counts(g):
     return (cells * g["sides"], 0, 0)
 
 
-def _mk_grid(dim, n):
+def _mk_grid(dim, n, geometry=False):
     import porepy as pp
     if dim == 0:
         g = pp.PointGrid(np.zeros((3, 1)))
     else:
         g = pp.CartGrid(np.array([n] + [1] * (dim - 1)))
-    g.compute_geometry()
+    if geometry:  # only the side grids of a mortar grid need it (cell volumes)
+        g.compute_geometry()
     return g
 
 
 def _mk_mortar(dim, n, sides):
     import porepy as pp
     from porepy.grids.mortar_grid import MortarSides
-    sg = {MortarSides.LEFT_SIDE: _mk_grid(dim, n)}
+    sg = {MortarSides.LEFT_SIDE: _mk_grid(dim, n, True)}
     if sides == 2:
-        sg[MortarSides.RIGHT_SIDE] = _mk_grid(dim, n)
+        sg[MortarSides.RIGHT_SIDE] = _mk_grid(dim, n, True)
     return pp.MortarGrid(dim, sg, codim=1)
 
 
@@ -433,6 +435,8 @@ def oracle(case):
             want_kind = "sub" if op.get("subs") is not None else "intf"
             if any(not (0 <= k < ngrids and case["grids"][k]["kind"] == want_kind) for k in gl):
                 clustered = False  # the call raised half-way (grid not in the md-grid): order is only claimed for well-formed histories
+        if kind == "create" and isinstance(ans, dict) and "ids" in ans:
+            clustered = True  # a create that ran to completion re-clustered everything
         if kind == "set" and pre is not None and ans == "ok":
             r = _post_set(w, op, pre, tag)
             if r:
@@ -503,13 +507,16 @@ def _pre_set(w, op, sel):
     ok_old = True
     for kind, i in slots:
         kw = {"iterate_index": i} if kind == "iter" else {"time_step_index": i}
-        try:
-            x = es.get_variable_values(list(by_block), **kw) if by_block else np.empty(0)
-            old[(kind, i)] = x
-            if x.size != total:
+        parts = []
+        for v in by_block:
+            try:
+                x = es.get_variable_values([v], **kw)
+                if x.size != _expected_size(v):
+                    ok_old = False  # stale values of an earlier variable of the same name on this grid
+                parts.append(x)
+            except KeyError:
                 ok_old = False
-        except KeyError:
-            ok_old = False
+        old[(kind, i)] = np.concatenate(parts) if parts else np.empty(0)
         oo = []
         for v in others:
             try:
@@ -614,14 +621,16 @@ def _gen_grids(rng):
     for _ in range(ns):
         grids.append({"kind": "sub", "dim": rng.choice([0, 1, 1, 2, 2, 3]), "n": rng.choice([1, 1, 2, 3])})
     for _ in range(ni):
-        grids.append({"kind": "intf", "dim": rng.choice([0, 1, 1, 2]), "n": rng.choice([1, 2]), "sides": rng.choice([1, 2]),
-                      "pair": [rng.randrange(ns), rng.randrange(ns)]})
+        grids.append({"kind": "intf", "dim": rng.choice([0, 1, 1, 2]), "n": rng.choice([1, 2]), "sides": rng.choice([1, 2]), "pair": [0, 0]})
     rng.shuffle(grids)
     # pairs refer to subdomain keys: fix them up after the shuffle
     subs = [k for k, g in enumerate(grids) if g["kind"] == "sub"]
     for g in grids:
         if g["kind"] == "intf":
-            g["pair"] = [rng.choice(subs), rng.choice(subs)]
+            a = rng.choice(subs)
+            g["pair"] = [a, rng.choice([b for b in subs if abs(grids[a]["dim"] - grids[b]["dim"]) <= 2])]
+            # a mortar grid never has a higher dimension than its neighbours (mdg.interfaces() lists dimensions <= dim_max only)
+            g["dim"] = min(g["dim"], min(grids[k]["dim"] for k in g["pair"]))
     ranks = list(range(len(grids)))
     rng.shuffle(ranks)
     for g, r in zip(grids, ranks):
